@@ -18,7 +18,11 @@ use crate::{
     typedesc::TypeDesc,
     CreateError, CreateResult,
   },
-  structure::{guid::GuidPrefix, sequence_number::SequenceNumber, time::Timestamp},
+  structure::{
+    guid::{EntityId, GuidPrefix},
+    sequence_number::SequenceNumber,
+    time::Timestamp,
+  },
   GUID,
 };
 use super::cache_change::CacheChange;
@@ -139,7 +143,14 @@ pub(crate) struct TopicCache {
   // we have been notified (GAP or HEARTBEAT) that is not available and never will.
   // Therefore, data before the marker SN can be handed off to a Reliable DataReader.
   // Initially, we consider the marker for each Writer (GUID) to be SequenceNumber::new(1)
-  received_reliably_before: BTreeMap<GUID, SequenceNumber>,
+  //
+  // The Readers of a topic in one participant share this cache, but each of them
+  // follows the Writer's stream on its own: they are matched at different times
+  // and lose different datagrams, and what the Writer declares not available to
+  // one of them (e.g. to a late joiner) may still be on its way to another. So
+  // the marker is kept per (reliable) Reader, and data is handed off up to the
+  // smallest of them.
+  received_reliably_before: BTreeMap<GUID, BTreeMap<EntityId, SequenceNumber>>,
 }
 
 impl TopicCache {
@@ -198,9 +209,39 @@ impl TopicCache {
 
   // Returns true if the "reliably_received_before"-marker was actually moved
   // forward and false if not.
-  pub fn mark_reliably_received_before(&mut self, writer: GUID, sn: SequenceNumber) -> bool {
-    let prev_sn = self.received_reliably_before.insert(writer, sn);
-    prev_sn.unwrap_or(SequenceNumber::new(1)) < sn
+  pub fn mark_reliably_received_before(
+    &mut self,
+    writer: GUID,
+    reader: EntityId,
+    sn: SequenceNumber,
+  ) -> bool {
+    let before = self.reliable_before(writer);
+    self
+      .received_reliably_before
+      .entry(writer)
+      .or_default()
+      .insert(reader, sn);
+    before < self.reliable_before(writer)
+  }
+
+  // The Reader does not follow the Writer (or, with None, any Writer) any longer,
+  // so it must not hold back the others.
+  pub fn forget_reader(&mut self, writer: Option<GUID>, reader: EntityId) {
+    match writer {
+      Some(writer) => {
+        if let Some(markers) = self.received_reliably_before.get_mut(&writer) {
+          markers.remove(&reader);
+        }
+      }
+      None => {
+        for markers in self.received_reliably_before.values_mut() {
+          markers.remove(&reader);
+        }
+      }
+    }
+    self
+      .received_reliably_before
+      .retain(|_writer, markers| !markers.is_empty());
   }
 
   pub fn get_change(&self, instant: &Timestamp) -> Option<&CacheChange> {
@@ -336,11 +377,11 @@ impl TopicCache {
     )
   }
 
-  fn reliable_before(&self, writer: GUID) -> SequenceNumber {
+  pub fn reliable_before(&self, writer: GUID) -> SequenceNumber {
     self
       .received_reliably_before
       .get(&writer)
-      .cloned()
+      .and_then(|markers| markers.values().min().copied())
       .unwrap_or(SequenceNumber::default())
     // Sequence numbering starts at default(), so anything before that is always
     // received reliably, since no such samples exist.
